@@ -1057,6 +1057,17 @@ def mb_cases(tier, rng):
             yield Case(req, 'h_c14_mb%d' % e['group'], oracle=oracle, model=False, cmp=MB_CMP[e['group']], nontrivial=True,
                        tags=['maybe-comp', 'f=' + name, 'g=' + gname, 'g-fails' if gx is None else ('f-fails' if res is None else 'valid'),
                              'f-attrs=%d' % len(p)])
+            if e['n'] == 2 and res is not None and made <= 3:
+                # the binary functor called with all operands at once, the maybe<view> (which has a value) in either position
+                for pos in (0, 1):
+                    try:
+                        r2 = np.asarray(e['ref'](gx, p, env[1]) if pos == 0 else e['ref'](env[1], p, gx))
+                    except ValueError:
+                        continue
+                    d2 = ','.join('%d' % v for v in r2.reshape(-1))
+                    yield Case(req.replace('c14_mb ', 'c14_mbcall ', 1) + ' pos=%d' % pos, 'h_c14_mb%d' % e['group'], dom=False,
+                               oracle='ok shape=%s data=%s' % (fmt(list(r2.shape)), d2), model=False, nontrivial=True,
+                               tags=['maybe-call', 'f=' + name, 'g=' + gname, 'pos=%d' % pos])
 
 
 def gen(tier, rng):
@@ -1114,5 +1125,10 @@ def norm_over_nothing(c):
     return a.get('f') in ('mean', 'var', 'stddev') and mb_g_fails(a)
 
 
+def maybe_operand_all_at_once(c):
+    """a functor of arity 2 called with both operands at once, one of them a maybe<view> that has a value"""
+    return c.req.startswith('c14_mbcall ') and not mb_g_fails(_args(c))
+
+
 KNOWN_PREDICATES = {'nonfirst_view_operand': nonfirst_view_operand, 'sibling_subviews_unaliased': sibling_subviews_unaliased,
-                    'norm_over_nothing': norm_over_nothing}
+                    'norm_over_nothing': norm_over_nothing, 'maybe_operand_all_at_once': maybe_operand_all_at_once}
